@@ -53,7 +53,7 @@ inductive Value
 
 /-! ## little-endian integers -/
 
-/-- MIRROR metadata.go:255-273 `writeUint` (truncating, `k` bytes, little-endian). -/
+/-- MIRROR metadata.go:260-273 `writeUint` (truncating, `k` bytes, little-endian). -/
 def leN : Nat → Nat → Bytes
   | 0, _ => []
   | k + 1, n => UInt8.ofNat (n % 256) :: leN k (n / 256)
@@ -68,7 +68,7 @@ def fits (w n : Nat) : Prop := n < 256 ^ w
 
 instance (w n : Nat) : Decidable (fits w n) := by unfold fits; infer_instance
 
-/-- MIRROR types.go:75-88 `offsetSizeCode`. -/
+/-- MIRROR types.go:79-90 `offsetSizeCode`. -/
 def offsetSizeCode (maxVal : Nat) : Nat :=
   if maxVal ≤ 0xFF then 0 else if maxVal ≤ 0xFFFF then 1 else if maxVal ≤ 0xFFFFFF then 2 else 3
 
@@ -89,7 +89,7 @@ def insertBy {α : Type} (key : α → Key) (a : α) : List α → List α
   | [] => [a]
   | b :: bs => if keyLt (key b) (key a) then b :: insertBy key a bs else a :: b :: bs
 
-/-- MIRROR encoding.go:377-379 `sort.Slice(entries, name <)`: any comparison sort gives this
+/-- MIRROR encoding.go:400-402 `sort.Slice(entries, name <)`: any comparison sort gives this
     result when the names are pairwise distinct (which `wf` demands; with duplicate names Go's
     unstable sort is unspecified and the decoder rejects the object anyway). -/
 def isort {α : Type} (key : α → Key) : List α → List α
@@ -98,12 +98,12 @@ def isort {α : Type} (key : α → Key) : List α → List α
 
 /-! ## MIRROR: encoder -/
 
-/-- MIRROR encoding.go:174-177 `makeHeader`: `byte(basic) | (valueHeader << 2)` on a byte. -/
+/-- MIRROR encoding.go:163-166 `makeHeader`: `byte(basic) | (valueHeader << 2)` on a byte. -/
 def mkHeader (basic vh : Nat) : UInt8 := UInt8.ofNat (basic + 4 * (vh % 64))
 
 def beN (k n : Nat) : Bytes := (leN k n).reverse
 
-/-- MIRROR encoding.go:50-172 `encodePrimitive` (= `encodeValuePrimitive`, 255-340). -/
+/-- MIRROR encoding.go:51-161 `encodePrimitive` (= `encodeValuePrimitive`, 250-325). -/
 def encPrim : Prim → Bytes
   | .null => [mkHeader 0 0]
   | .bool true => [mkHeader 0 1]
@@ -139,7 +139,7 @@ def offsetsOf (lens : List Nat) : List Nat := startsOf 0 lens ++ [lens.sum]
 
 def numElems (n : Nat) : Bytes := if n > 255 then leN 4 n else leN 1 n
 
-/-- MIRROR encoding.go:519-597 `buildArrayBytes`: `children` are the encoded elements. -/
+/-- MIRROR encoding.go:533-612 `buildArrayBytes`: `children` are the encoded elements. -/
 def buildArray (children : List Bytes) : Bytes :=
   let n := children.length
   let lens := children.map List.length
@@ -149,13 +149,13 @@ def buildArray (children : List Bytes) : Bytes :=
   UInt8.ofNat (3 + 4 * code + 16 * large) ::
     (numElems n ++ ((offsetsOf lens).flatMap (leN (code + 1)) ++ children.flatten))
 
-/-- one object field after encoding (encoding.go:241-246 `encodedField`). -/
+/-- one object field after encoding (encoding.go:235-240 `encodedField`). -/
 structure Entry where
   id : Nat
   name : Key
   bytes : Bytes
 
-/-- MIRROR encoding.go:732-838 `buildObjectBytes`: `entries` already sorted by name. -/
+/-- MIRROR encoding.go:735-838 `buildObjectBytes`: `entries` already sorted by name. -/
 def buildObject (entries : List Entry) : Bytes :=
   let n := entries.length
   let maxID := (entries.map (·.id)).foldl max 0
@@ -168,13 +168,13 @@ def buildObject (entries : List Entry) : Bytes :=
     (numElems n ++ ((entries.map (·.id)).flatMap (leN (idCode + 1)) ++
       ((offsetsOf lens).flatMap (leN (code + 1)) ++ (entries.map (·.bytes)).flatten)))
 
-/-- MIRROR metadata.go:109-136 `MetadataBuilder.Add` seen from outside: index of `k`. -/
+/-- MIRROR metadata.go:120-142 `MetadataBuilder.Add` seen from outside: index of `k`. -/
 def findIdx (k : Key) : Dict → Nat
   | [] => 0
   | x :: xs => if x = k then 0 else findIdx k xs + 1
 
 mutual
-/-- MIRROR encoding.go:18-48 `Encode` / 342-389 `encodeValue`, `encodeValueArray`,
+/-- MIRROR encoding.go:18-48 `Encode` / 327-407 `encodeValue`, `encodeValueArray`,
     `encodeValueObject`, with the dictionary ids looked up in the final dictionary `d`
     (ids returned by `Add` are stable, so this equals the id returned while encoding). -/
 def enc (d : Dict) : Value → Bytes
@@ -192,7 +192,7 @@ end
 def addKey (d : Dict) (k : Key) : Dict := if k ∈ d then d else d ++ [k]
 
 mutual
-/-- MIRROR: the sequence of `e.b.Add(f.Name)` calls of `encodeValueObject` (encoding.go:361-376):
+/-- MIRROR: the sequence of `e.b.Add(f.Name)` calls of `encodeValueObject` (encoding.go:385-398):
     each field name is interned, then the field value is encoded (depth first), in field order. -/
 def collect : Dict → Value → Dict
   | d, .prim _ => d
@@ -208,7 +208,7 @@ end
 
 mutual
 /-- MIRROR, literal one-pass form of `encodeValue`/`encodeValueArray`/`encodeValueObject`
-    (encoding.go:342-389): the `MetadataBuilder` is threaded through the traversal, `Add` returns the
+    (encoding.go:327-407): the `MetadataBuilder` is threaded through the traversal, `Add` returns the
     index of the (possibly new) name, children are encoded in field order, then the entries are
     sorted by name. `encSt_eq` (VariantLemmas) shows it equals the two-pass form `(collect, enc)`. -/
 def encSt : Dict → Value → Dict × Bytes
@@ -239,13 +239,13 @@ def metaOf (v : Value) : Dict := collect [] v
 
 def encode (d : Dict) (v : Value) : Bytes := enc d v
 
-/-- MIRROR metadata.go:113-115: the builder's `unsorted` flag — some entry compares below its
+/-- MIRROR metadata.go:127-129: the builder's `unsorted` flag — some entry compares below its
     predecessor. -/
 def sortedFlag : Dict → Bool
   | a :: b :: rest => !(keyLt b a) && sortedFlag (b :: rest)
   | _ => true
 
-/-- MIRROR metadata.go:194-232 `MetadataBuilder.AppendTo`. -/
+/-- MIRROR metadata.go:188-224 `MetadataBuilder.AppendTo`. -/
 def encodeMeta (d : Dict) : Bytes :=
   let n := d.length
   let lens := d.map List.length
